@@ -342,6 +342,7 @@ func buildOverlayRAC(root, pkgDir string) (map[string][]byte, error) {
 				}
 			}
 			loops := collectLoops(fd.Body)
+			resolveNamedLoops(c, loops, src, off)
 			if len(c.LoopInv) > 0 {
 				for n, l := range loops {
 					if _, isLoop := l.(ast.Stmt); isLoop {
